@@ -116,6 +116,29 @@ CLAIMS = {
         tech="static analysis: type-resolved call graph (mypy as library) + transitive effect analysis with receiver provenance (fresh / element / parameter / global) + set-order leak classification",
         ref="DESIGN.md section 2/C15",
     ),
+    "C16": dict(
+        cat="other",
+        text="Decided on the class definitions: one equality derived from __hash__() (all citation dataclasses eq=False, dunders undecorated "
+        "and stateless), value-hash read-sets (case citations exactly groups[volume,page,reporter] + guessed edition; none reads "
+        "metadata/token/index/spans/year), class tag, identity hash for id./unknown/placeholder-page, placeholder normalisation in a "
+        "__post_init__ every case citation passes through, guess_edition reached for every extracted resource citation and guessing a "
+        "single candidate whatever the year, corrected_reporter prefers the guess, canonical sha256 serialisation.",
+        note="Not decided: that each reporters-db variation is extracted with its edition as only candidate (database x pattern "
+        "behaviour); the re-parse / fixed-point clause of corrected_citation(). No sha256 / hash(int) collisions.",
+        tech="static analysis: transitive read-set of __hash__ through self-method calls incl. subclass overrides, path-sensitive identity-hash check, MRO/super-chain check, call-graph reachability of guess_edition",
+        ref="DESIGN.md section 2/C16",
+    ),
+    "C18": dict(
+        cat="other",
+        text="Who-may-write rule for the numeric year (mypy receiver types): only get_year(<text>) or the parallel copy, paired per path with "
+        "the textual year from the same text; get_year's non-None returns dominated by both range tests with bounds 1600 and "
+        "date.today().year+1, int() under except ValueError, year groups exactly \\d{4}; guess_edition: single writer, exact-before-variation "
+        "candidates, year filter only under `len>1 and year`, guess = candidates[0] under len==1, no path declines a single candidate; "
+        "disambiguate_reporters is a sub-sequence filter and the flag is used once, last.",
+        note="Not decided: that a year in every position is found by the regexes; includes_year against database dates.",
+        tech="static analysis: typed who-may-write check, path-sensitive guard/dominance checks, constant folding through module-level names, regex-AST shape of the year groups",
+        ref="DESIGN.md section 2/C18",
+    ),
 }
 
 NA = {
